@@ -1,1 +1,3 @@
 import TurVerif.Model.Varint
+import TurVerif.Model.KeyEnc
+import TurVerif.Model.KeyEncJson
